@@ -77,6 +77,16 @@ func gocv_sameArr(a, b []byte) bool {
 	return false
 }
 
+// gocv_prefixEq: r[i] == b[i] for 0 <= i < n.
+func gocv_prefixEq(r, b []byte, n int) bool {
+	for i := 0; i < n; i++ {
+		if i >= len(r) || i >= len(b) || r[i] != b[i] {
+			return false
+		}
+	}
+	return true
+}
+
 // gocv_strview: b is a view of the bytes of s (same memory, same length).
 func gocv_strview(b []byte, s string) bool {
 	if len(b) != len(s) {
